@@ -124,6 +124,20 @@ def make_harness(prog, shape, n, max_yield=40):
             nums = [hn for (hn, _cnt) in shape[b][1]]
             if nums != list(range(len(nums))):
                 want_err += 1
+        # a headless band that still has index hunks (its head was lost) and is stepped over on the way down is reported once
+        stt = lambda x: table.get(x, ('absent', []))[0]
+        b = n
+        while stt(b) not in ('closed', 'noheadtail'):       # (a tail without a head still ends the walk)
+            nb = None
+            for cand in range(b - 1, -1, -1):
+                if stt(cand) in ('open', 'closed'):
+                    nb = cand
+                    break
+                if stt(cand) in ('nohead', 'noheadtail') and shape[cand][1]:
+                    want_err += 1
+            if nb is None:
+                break
+            b = nb
         if nerr != want_err:
             got = got + ['errors=%d' % nerr]
             want = want + ['errors=%d' % want_err]
